@@ -31,7 +31,7 @@ namespace occa {
 
     void dontUseRefs();
     void addKernelRef(kernel *ker);
-    void removeKernelRef(kernel *ker);
+    bool removeKernelRef(kernel *ker);
     bool needsFree() const;
 
     void assertArgumentLimit() const;
